@@ -5,3 +5,4 @@ cd /repo && git apply /verif/seeded/$sid/patch.diff || { echo "APPLY FAILED $sid
 cd /verif && timeout 1800 ./check $cid --tier $tier 2>/dev/null | grep -v "^KNOWN" | tail -3
 echo "exit=${PIPESTATUS[0]} ($sid vs $cid)"
 cd /repo && git checkout -- . 
+git -C /verif checkout -- evidence 2>/dev/null
